@@ -69,6 +69,27 @@ func (w *World) foldRound(overlay map[string][]byte, st *foldState) map[string][
 				}
 			}
 		}
+		// recorded functions that are absent from this tree (renamed, perhaps, in a way the fingerprint does not yet
+		// recognise because the renamed function calls new helpers): a new function with such a signature is not folded
+		// away - once its own helpers are folded the next load may identify it
+		present := map[string]bool{}
+		for fo := range decls {
+			key := funcObjName(fo)
+			if r := recvNameOf(fo.Type().(*types.Signature)); r != "" {
+				key = r + "." + key
+			}
+			present[key] = true
+		}
+		missingSig := map[string]bool{}
+		for key, af := range rec {
+			if !present[key] {
+				recv := ""
+				if i := strings.LastIndex(key, "."); i >= 0 {
+					recv = key[:i]
+				}
+				missingSig[recv+"|"+af.Sig] = true
+			}
+		}
 		// candidates: new, unexported, not a rename
 		cand := map[*types.Func]bool{}
 		for fo := range decls {
@@ -84,6 +105,9 @@ func (w *World) foldRound(overlay map[string][]byte, st *foldState) map[string][
 				key = r + "." + key
 			}
 			if _, known := rec[key]; known {
+				continue
+			}
+			if missingSig[recvNameOf(sig)+"|"+sigFingerprint(sig)] {
 				continue
 			}
 			cand[fo] = true
